@@ -255,6 +255,14 @@ fn gen_message(conn: usize, i: usize, s: usize, last: bool, allow_ambiguous: boo
         }
     }
     let mut head = format!("{method} {path} HTTP/1.1\r\n").into_bytes();
+    // (one message in forty carries 100-140 other fields in front of its framing fields:
+    // what a field means must not depend on how many came before it)
+    if gen::ratio(1, 40) {
+        for k in 0..100 + gen::below(41) {
+            head.extend_from_slice(format!("x-f{k}:v\r\n").as_bytes());
+        }
+        gen::count("probe.more_than_100_fields");
+    }
     for (n, v) in &fields {
         head.extend_from_slice(format!("{n}:{}{v}\r\n", if gen::ratio(1, 2) { " " } else { "" }).as_bytes());
     }
@@ -516,7 +524,7 @@ pub fn spec() -> PropertySpec {
         scenarios: vec![Scenario { name: "c03.framing", property: "C03", func: scenario, runs_quick: 250_000, runs_thorough: 8_000_000, doc: "framing histories" },
             Scenario { name: "c03.interrupted_read", property: "C03", func: interrupted_read, runs_quick: 150_000, runs_thorough: 3_000_000, doc: "transient read error at every offset of a sized request + pipelined request (HttpConn level)" },
         ],
-        required_probes: vec!["probe.ambiguous_framing_rejected", "probe.transfer_coding", "probe.three_or_more_messages_framed", "probe.coding_and_length_together", "probe.gave_up_after_interrupt"],
+        required_probes: vec!["probe.ambiguous_framing_rejected", "probe.transfer_coding", "probe.three_or_more_messages_framed", "probe.coding_and_length_together", "probe.gave_up_after_interrupt", "probe.more_than_100_fields"],
         components: components_server(),
         assumptions: vec!["coding names are generated in lower case only", "obsolete line folding and absolute-form targets are outside the grammar the library documents"],
     }
